@@ -64,6 +64,7 @@ macro_rules! harnesses {
 pub mod src;
 pub use src::*;
 
+pub mod gen;
 pub mod known;
 pub mod oracle;
 pub mod stubs;
